@@ -57,8 +57,92 @@ fn key(spec: &Spec) -> String {
     serde_json::to_string(spec).unwrap()
 }
 
+/// A fingerprint of a zone's behaviour over a dense grid: offset, DST flag
+/// and abbreviation every 6 hours 2023-2026 and every 45 days 1890-2110;
+/// the classification (unambiguous / gap / fold, with offsets) of every
+/// civil hour of 2024; 40 transitions forwards from 2000 and 40 backwards
+/// from 2040.
+pub fn digest(tz: &jiff::tz::TimeZone) -> u64 {
+    use jiff::Timestamp;
+    let mut h = crate::rng::Fnv::new();
+    let mut probe = |s: i64| {
+        let ts = Timestamp::from_second(s).unwrap();
+        let info = tz.to_offset_info(ts);
+        h.u64(info.offset().seconds() as u64);
+        h.byte(matches!(info.dst(), jiff::tz::Dst::Yes) as u8);
+        h.bytes(info.abbreviation().as_bytes());
+        h.u64(tz.to_offset(ts).seconds() as u64);
+    };
+    let mut s = 1_672_531_200i64; // 2023-01-01
+    while s < 1_798_761_600 {
+        probe(s);
+        s += 6 * 3600;
+    }
+    let mut s = -2_524_521_600i64; // 1890
+    while s < 4_417_977_600 {
+        probe(s);
+        s += 45 * 86_400;
+    }
+    let mut dt = jiff::civil::DateTime::constant(2024, 1, 1, 0, 30, 0, 0);
+    for _ in 0..(366 * 24) {
+        let a = tz.to_ambiguous_timestamp(dt);
+        h.bytes(format!("{:?}", a.offset()).as_bytes());
+        dt = dt.checked_add(jiff::ToSpan::hours(1)).unwrap();
+    }
+    let from = Timestamp::from_second(946_684_800).unwrap();
+    for tr in tz.following(from).take(40) {
+        h.u64(tr.timestamp().as_second() as u64);
+        h.u64(tr.offset().seconds() as u64);
+        h.bytes(tr.abbreviation().as_bytes());
+    }
+    let from = Timestamp::from_second(2_208_988_800).unwrap();
+    for tr in tz.preceding(from).take(40) {
+        h.u64(tr.timestamp().as_second() as u64);
+        h.u64(tr.offset().seconds() as u64);
+        h.bytes(tr.abbreviation().as_bytes());
+    }
+    h.0
+}
+
+/// Compares the behaviour digest of a fresh handle of every pooled zone
+/// with the recorded one, and static zones with their heap twins.
+pub fn check_digests() -> Result<usize, String> {
+    let v: Value =
+        serde_json::from_str(include_str!("../../golden/c20_answers.json")).unwrap_or(json!({}));
+    let rec = &v["__digests__"];
+    let mut n = 0;
+    for spec in golden_specs() {
+        let tz = interp::make_tz(&spec);
+        let d = format!("{:016x}", digest(&tz));
+        if let Some(want) = rec[key(&spec)].as_str() {
+            n += 1;
+            if want != d {
+                return Err(format!(
+                    "the behaviour of a fresh {spec:?} handle over the probe grid (offsets, abbreviations, gap/fold classification, transitions) differs from the recorded behaviour of the pinned tree (digest {d}, recorded {want})"
+                ));
+            }
+        }
+    }
+    for i in 0..N_STATIC {
+        let (s, hp) = (interp::make_tz(&Spec::Static(i)), interp::make_tz(&Spec::TzifBundled(i)));
+        if digest(&s) != digest(&hp) {
+            return Err(format!(
+                "static zone {} and the heap zone built from the same bytes behave differently over the probe grid",
+                interp::STATIC_NAMES[i as usize]
+            ));
+        }
+    }
+    Ok(n)
+}
+
 pub fn dump() -> Value {
     let mut out = serde_json::Map::new();
+    let mut digests = serde_json::Map::new();
+    for spec in golden_specs() {
+        let tz = interp::make_tz(&spec);
+        digests.insert(key(&spec), json!(format!("{:016x}", digest(&tz))));
+    }
+    out.insert("__digests__".to_string(), Value::Object(digests));
     for spec in golden_specs() {
         let tz = interp::make_tz(&spec);
         let mut m = serde_json::Map::new();
